@@ -1910,6 +1910,15 @@ class GroupBy:
     ):
         value_list, value_names = convert_data_to_arr_list_and_keys(values)
         common_index = _validate_input_lengths_and_indexes(value_list)
+        if len(value_list[0]) != len(self):
+            raise ValueError(
+                f"Length of the input values ({len(value_list[0])}) does not match length of group keys ({len(self)})"
+            )
+        if self._key_index is not None and common_index is not None:
+            if not self._key_index.equals(common_index):
+                raise ValueError(
+                    "Pandas index of inputs does not match that of the group keys"
+                )
         keep = ilocs > -1
         ilocs = ilocs[keep]
 
